@@ -130,6 +130,7 @@ pub fn c01(cx: &RunCtx) {
     for_each_dom!(c01_dom, cx);
     crate::fam::pumping_all(cx, &[Kind::Panic]);
     crate::fam::critical_all(cx, &[Kind::Panic]);
+    crate::fam::big_integers_all(cx, &[Kind::Panic]);
     crate::fam::nested_slips_all(cx, &[Kind::Panic]);
     crate::fam::foreign_all(cx, &[Kind::Panic]);
     {
